@@ -296,3 +296,18 @@ Qed.
 Theorem segment3_center_is_midpoint l :
   Base1DIn3D_center l =3= mkV3 (v3x (lr3p l) + (1 # 2) * v3x (lr3v l)) (v3y (lr3p l) + (1 # 2) * v3y (lr3v l)) (v3z (lr3p l) + (1 # 2) * v3z (lr3v l)).
 Proof. unfold Base1DIn3D_center, v3eq. cbv zeta. cbn [v3x v3y v3z]. repeat split; field. Qed.
+
+(* ---- spheres: the box centre -/+ radius contains every point of the surface (and of the ball) *)
+Theorem sphere_box_contains s q : 0 <= sp_r s -> sqd3 q (sp_c s) <= sp_r s * sp_r s ->
+  v3x (Sphere_min s) <= v3x q <= v3x (Sphere_max s) /\ v3y (Sphere_min s) <= v3y q <= v3y (Sphere_max s) /\
+  v3z (Sphere_min s) <= v3z q <= v3z (Sphere_max s).
+Proof.
+  intros Hr H. unfold Sphere_min, Sphere_max. cbv zeta. cbn [v3x v3y v3z].
+  unfold sqd3, dot3, sub3 in H. cbn [v3x v3y v3z] in H.
+  set (r := sp_r s) in *. set (dx := v3x q - v3x (sp_c s)) in *. set (dy := v3y q - v3y (sp_c s)) in *. set (dz := v3z q - v3z (sp_c s)) in *.
+  assert (X : dx * dx <= r * r) by (pose proof (Qsq_nonneg dy); pose proof (Qsq_nonneg dz); lra).
+  assert (Y : dy * dy <= r * r) by (pose proof (Qsq_nonneg dx); pose proof (Qsq_nonneg dz); lra).
+  assert (Z_ : dz * dz <= r * r) by (pose proof (Qsq_nonneg dx); pose proof (Qsq_nonneg dy); lra).
+  assert (B : forall d, d * d <= r * r -> - r <= d <= r) by (intros d Hd; split; nra).
+  pose proof (B dx X). pose proof (B dy Y). pose proof (B dz Z_). unfold dx, dy, dz in *. repeat split; lra.
+Qed.
